@@ -142,4 +142,45 @@ theorem block_ok (src R : List UInt8) (v : Verif) :
   have : 12 + ((chunksBytes src).length + 1) + 4 = (chunksBytes src).length + 17 := by omega
   rw [this]
 
+/-- the block loop: one block, then the index indicator -/
+theorem blocks_ok (src R' : List UInt8) (fuel : Nat) (hf : 2 ≤ fuel) :
+    blocks fuel (0x02 :: 0x00 :: 0x21 :: 0x01 :: 0x00 :: 0x00 :: 0x00 :: 0x00 :: 0x37 :: 0x27 :: 0x97 :: 0xD6 ::
+      (chunksBytes src ++ 0x00 :: (padList ((chunksBytes src).length + 13) ++ (le32 (crc32 src) ++ 0x00 :: R')))) #[] {} 0
+    = .ok (#[] ++ pushList #[] src, 0x00 :: R', ({} : Verif).add ((chunksBytes src).length + 17) src.length, 1) := by
+  obtain ⟨f, rfl⟩ : ∃ f, fuel = f + 2 := ⟨fuel - 2, by omega⟩
+  have e20 : ¬ ((0x02 : UInt8) = 0x00) := by decide
+  simp only [blocks, e20, if_false, block_ok, if_true]
+
+theorem uvList_length_le : ∀ (k x : Nat), 1 ≤ k → x < 2 ^ (7 * k) → (uvList x).length ≤ k := by
+  intro k
+  induction k with
+  | zero => intro x h; omega
+  | succ k ih =>
+    intro x _ hx
+    rw [uvList]
+    split
+    · rename_i hge
+      have hk : 1 ≤ k := by
+        apply Classical.byContradiction; intro hn
+        have : k = 0 := by omega
+        subst this
+        simp at hx; omega
+      have hx7 : x >>> 7 < 2 ^ (7 * k) := by
+        rw [Nat.shiftRight_eq_div_pow]
+        have : (2 : Nat) ^ (7 * (k + 1)) = 2 ^ (7 * k) * 2 ^ 7 := by rw [← Nat.pow_add]; congr 1
+        rw [this] at hx
+        exact Nat.div_lt_of_lt_mul (by rw [Nat.mul_comm]; exact hx)
+      have := ih (x >>> 7) hk hx7
+      simp only [List.length_cons]; omega
+    · simp
+
+theorem uvList_length_pos (x : Nat) : 1 ≤ (uvList x).length := by
+  rw [uvList]; split <;> simp
+
+theorem u32le_bytes (n : Nat) (h : n < 4294967296) :
+    u32le n.toUInt8 (n >>> 8).toUInt8 (n >>> 16).toUInt8 (n >>> 24).toUInt8 = n := by
+  unfold u32le
+  simp only [toUInt8_toNat', Nat.shiftRight_eq_div_pow, Nat.shiftLeft_eq]
+  omega
+
 end WuffsVerif.WXz
